@@ -482,3 +482,59 @@ def target_generate_enum_definition():
 
 
 TARGETS["_generate_enum_definition"] = target_generate_enum_definition
+
+
+def target_render_integer():
+    """header_generator._render_integer / _render_integer_for_expression (C07 "constants equal the values the front end
+    computed", C01): for EVERY integer v in [-2^63, 2^64) the rendered text is
+
+        static_cast</**/T>(<decimal of v><U?>LL)            or, for v == -2^63,   static_cast</**/T>(-9223372036854775807LL - 1)
+
+    with  T = _cpp_integer_type_for_range(v, v)  (its own contract: the first of int32/uint32/int64/uint64 that holds v),
+    and the C++ literal is well-formed and denotes v:  with `U`, 0 <= v <= 2^64-1 fits
+    unsigned long long;  without `U` the magnitude |v| <= 2^63-1 fits long long (a leading '-' is the unary minus applied
+    to that literal);  the special form computes -(2^63-1) - 1 without overflow.  The cast to T therefore never changes
+    the value.  Assumed: Python's decimal rendering of ints; C++ integer-literal typing rules as stated here."""
+    cons, hg, error, ir_util = _m()
+    eng = pyvc.Engine()
+    eng.precise_format = True
+    TYPES = {"::std::int32_t": (-2**31, 2**31 - 1), "::std::uint32_t": (0, 2**32 - 1), "::std::int64_t": (-2**63, 2**63 - 1), "::std::uint64_t": (0, 2**64 - 1)}
+
+    def harness(c):
+        fn = c.choice("function", ["_render_integer", "_render_integer_for_expression"])
+        v = z3.Int("value")
+        c.assume(z3.And(v >= -2**63, v < 2**64))
+        # _cpp_integer_type_for_range under its contract (contracts/gate.py target _cpp_integer_type_for_range): first type that holds [v, v]
+        tname = c.choice("type-of-value", sorted(TYPES))
+        order = ["::std::int32_t", "::std::uint32_t", "::std::int64_t", "::std::uint64_t"]
+        lo, hi = TYPES[tname]
+        c.assume(z3.And(v >= lo, v <= hi))
+        for t in order[:order.index(tname)]:
+            c.assume(z3.Not(z3.And(v >= TYPES[t][0], v <= TYPES[t][1])))
+        eng.contract(hg._cpp_integer_type_for_range, lambda interp, a, b: tname, "_cpp_integer_type_for_range")
+        c.covered = True
+        st, got = pyvc.run_body(c, "compiler.back_end.cpp.header_generator." + fn, [SInt(v)])
+        pieces = got.pieces if isinstance(got, pyvc.PStr) else [got]
+        text = "".join(p if isinstance(p, str) else "@NUM@" for p in pieces)
+        nums = [p for p in pieces if not isinstance(p, str)]
+        prefix = "::emboss::support::Maybe</**/%s>(" % tname if fn.endswith("expression") else ""
+        tail = ")" if prefix else ""
+        special = "%sstatic_cast</**/%s>(-9223372036854775807LL - 1)%s" % (prefix, tname, tail)
+        if not nums:
+            c.oblige("special-form-only-for-the-minimum", z3.And(v == -2**63, z3.BoolVal(text == special)), detail=text)
+            return
+        forms = {u: "%sstatic_cast</**/%s>(@NUM@%sLL)%s" % (prefix, tname, u, tail) for u in ("", "U")}
+        c.oblige("form:static_cast-to-the-type-of-the-value-around-one-literal", len(nums) == 1 and text in forms.values(), detail=repr(pieces)[:200])
+        if len(nums) != 1 or text not in forms.values():
+            return
+        c.oblige("literal-is-the-decimal-rendering-of-the-value", nums[0].t == v)
+        if text == forms["U"]:
+            c.oblige("unsigned-literal-is-non-negative-and-fits-unsigned-long-long", z3.And(v >= 0, v <= 2**64 - 1))
+        else:
+            c.oblige("signed-literal-magnitude-fits-long-long", z3.And(v >= -(2**63 - 1), v <= 2**63 - 1))
+        c.oblige("cast-target-holds-the-value", z3.And(v >= lo, v <= hi))
+    paths = eng.explore(harness)
+    return pyvc.collect(paths, "_render_integer"), sum(1 for p in paths if p.covered)
+
+
+TARGETS["_render_integer"] = target_render_integer
